@@ -226,7 +226,7 @@ func checkC09(c *Ctx) {
 	}
 	ru2 := c.R.Rule("C09-R2", "the bytes queued are proto.Marshal of a StateBroadcastEvent, and the entry placed in the event is the very variable that was written to the store (after stamping)", "E3 provenance", 9)
 	ru3 := c.R.Rule("C09-R3", "bulk mutators: the store write and the append to the event are in the same loop iteration", "E1/E2 loop membership", 3)
-	ru6 := c.R.Rule("C09-R6", "the clock is read while the state lock is held (between Lock and the store write), so timestamps order like local application", "E2 dominance", 9)
+	ru6 := c.R.Rule("C09-R6", "the clock is read (directly or by a stamp function) while the state lock is held (between Lock and the store write), so timestamps order like local application", "E2 dominance", 9)
 	var fns []*ssa.Function
 	for _, m := range d.mutators {
 		f := m.fn
@@ -371,8 +371,9 @@ func checkC09(c *Ctx) {
 		for _, g := range clockFns {
 			clockCalls = append(clockCalls, core.CallsIn(g)...)
 		}
+		sf := c.stampFuncs(d)
 		for _, cl := range clockCalls {
-			if isClockCall(cl) {
+			if isClockCall(cl) || (cl.Static != nil && sf.ok[cl.Static]) {
 				nclock++
 				at := cl.Instr
 				if via != nil && at.Parent() == f && !exclHeld(at) {
